@@ -3,6 +3,7 @@
 package tcp
 
 import (
+	proxyproto "github.com/armon/go-proxyproto"
 	"bytes"
 	"crypto/tls"
 	"fmt"
@@ -509,7 +510,7 @@ func TestVerifC09Tunnels(t *testing.T) {
 // C12 on the TCP paths: a connection whose peer the rules reject is closed and no upstream is dialled.
 func TestVerifC12TCP(t *testing.T) {
 	L := ev.Begin("C12", "c12-tcp", "exploration",
-		"tcp / tcp+sni / tcp-dynamic ServeTCP with in-memory connections carrying *net.TCPAddr peers: rule {allow v4 block, deny v4 block, allow with malformed item} x peer {inside, outside, zone-scoped IPv6}; oracle: rejected peers never cause a dial and get their connection closed; admitted peers are tunnelled; plus a route with an unreachable rule-less instance and one that rejects the peer: no connection to the latter. non-trivial = every case")
+		"tcp / tcp+sni / tcp-dynamic ServeTCP with in-memory connections carrying *net.TCPAddr peers: rule {allow v4 block, deny v4 block, allow with malformed item} x peer {inside, outside, zone-scoped IPv6}; oracle: rejected peers never cause a dial and get their connection closed; admitted peers are tunnelled; plus a listener with inbound PROXY protocol (the address in the PROXY line is the peer); plus a route with an unreachable rule-less instance and one that rejects the peer: no connection to the latter. non-trivial = every case")
 	type rule struct {
 		opt   string
 		admit func(net.IP) bool
@@ -604,6 +605,66 @@ func TestVerifC12TCP(t *testing.T) {
 					L.Violation("admitted-peer-not-tunnelled/"+kind, d)
 				}
 			}
+		}
+	}
+	// a listener with inbound PROXY protocol: the peer is the address the PROXY line names, and a rejected one causes no dial
+	for _, src := range []string{"11.0.0.1", "10.1.2.3"} {
+		tb, err := route.NewTable(bytes.NewBufferString("route add svc :1234 tcp://10.0.0.99:9000 opts \"proto=tcp allow=ip:10.0.0.0/8\"\n"))
+		if err != nil {
+			panic(err)
+		}
+		var target *route.Target
+		for _, rs := range tb {
+			target = rs[0].Targets[0]
+		}
+		lookup := func(k string) *route.Target {
+			if k != ":1234" {
+				return nil
+			}
+			return target
+		}
+		var env *vnet.Env
+		var in *vnet.Conn
+		var upGot []byte
+		vsched.Explore(vsched.Options{Bound: 0, AllowDeadlock: true}, func(x *vsched.X) {
+			env = &vnet.Env{}
+			vhook.DialHook = env.DialTimeout
+			var client *vnet.Conn
+			in, client = vnet.Pair("in", &net.TCPAddr{IP: net.IPv4(10, 0, 0, 1), Port: 1234}, "client", &net.TCPAddr{IP: net.IPv4(192, 0, 2, 50), Port: 7})
+			upGot = nil
+			wrapped := proxyproto.NewConn(in, 0)
+			x.Go("proxy", func() { (&Proxy{Lookup: lookup}).ServeTCP(wrapped) })
+			x.Go("client", func() {
+				client.Write([]byte("PROXY TCP4 " + src + " 10.0.0.1 4711 1234\r\ndata"))
+				io.Copy(io.Discard, client)
+			})
+			x.Go("upstream", func() {
+				vsched.BlockUntil("accept", func() bool { return len(env.Accepted) > 0 || in.Closed() })
+				if len(env.Accepted) == 0 {
+					return
+				}
+				b := make([]byte, 4096)
+				for {
+					n, err := env.Accepted[0].Read(b)
+					upGot = append(upGot, b[:n]...)
+					if err != nil {
+						return
+					}
+				}
+			})
+			x.Run()
+			vhook.DialHook = nil
+		})
+		L.Case()
+		L.NontrivialKey("inbound-proxy-protocol/" + src)
+		admitted := strings.HasPrefix(src, "10.")
+		d := map[string]interface{}{"listener": "tcp with inbound PROXY protocol", "rule": "allow=ip:10.0.0.0/8", "address_in_the_proxy_line": src, "dials": env.Dials, "connection_closed": in.Closed()}
+		L.Sample(d)
+		if !admitted && (env.Dials != 0 || !in.Closed()) {
+			L.Violation("rejected-peer-reached-upstream-or-kept-its-connection/tcp/inbound-proxy-protocol", d)
+		}
+		if admitted && (env.Dials != 1 || !bytes.HasSuffix(upGot, []byte("data"))) {
+			L.Violation("admitted-peer-not-tunnelled/tcp/inbound-proxy-protocol", d)
 		}
 	}
 	// a route with two instances that carry different rules, the first one picked cannot be reached: whatever the
